@@ -213,6 +213,25 @@ def run(n, seed):
                     for f in op["faults"]:
                         f["rules"] = f.get("rules")
         cases.append(c)
+    # variable-font histories: UFO *directories* are ninja outputs; the outside fault devices cannot tear a
+    # directory, so these keep only fail_before / fail_after step faults
+    for i in range(max(1, n // 6)):
+        c = c09.gen_vf_history(seed, 200000 + i)
+        c["id"] = "stubval-%d-vf%d" % (seed, i)
+        jb = c["jobs"][0]
+        jb["id"] = c["id"] + ".j0"
+        jb["root_id"] = "stubval/%d/vf%d" % (seed, i)
+        jb["keep_trace"] = False
+        jb["hashseed"] = 0
+        for op in jb["ops"]:
+            if op["op"] == "invoke":
+                op["sched"] = {"j": 1, "policy": "manifest", "seed": 0, "exec_at": "finish"}
+                op.pop("driver_fault", None)
+                op.pop("kill_after", None)
+                op.pop("edits", None)
+                if op.get("faults"):
+                    op["faults"] = [f for f in op["faults"] if f["kind"] in ("fail_before", "fail_after")]
+        cases.append(c)
     t0 = time.time()
     sim = orch.run_cases(cases, tag="stubval")
     # real replays, a few at a time (each is a sequential ninja)
